@@ -20,6 +20,9 @@ func errRules() []*Rule {
 		{ID: "ERR-7", Props: []string{"C12", "C18", "C01", "C02"}, Min: 20,
 			Doc: "an error obtained inside a loop is looked at in the iteration that obtained it: it is never merely carried into the next iteration (where the next call's result overwrites it)",
 			Run: runErr7},
+		{ID: "NUMLIT", Props: []string{"C10", "C01", "C16"}, Min: 2,
+			Doc: "integer literals of the SQL text are read the way SQLite reads them: decimal, or hexadecimal after 0x — never with base 0, which is Go's literal syntax (a leading 0 means octal, 0b/0o prefixes and underscores are accepted)",
+			Run: runNumLit},
 		{ID: "ERR-SENTINEL", Props: []string{"C12", "C10", "C16"}, Min: 4,
 			Doc: "the tokenizer's number reader has no error result: every failed strconv parse in it returns length −1, and its caller turns a negative length into an error before using the token",
 			Run: runErrSentinel},
@@ -1131,5 +1134,50 @@ func runErr7(c *Ctx) {
 	}
 	if n == 0 {
 		c.Pass("no error-producing call inside a loop", token.NoPos, "nothing to decide")
+	}
+}
+
+func runNumLit(c *Ctx) {
+	p := c.P
+	fn := c.MustFunc("sql", "readNumericLiteral")
+	if fn == nil {
+		return
+	}
+	fns := []*ssa.Function{fn}
+	for _, cs := range callsIn(fn) {
+		if cal := cs.Common().StaticCallee(); cal != nil && inlinable != nil && inlinable(cal) {
+			fns = append(fns, cal)
+		}
+	}
+	n := 0
+	for _, f := range fns {
+		for _, cs := range callsIn(f) {
+			cal := cs.Common().StaticCallee()
+			if cal == nil || !(isLibFunc(cal, "strconv", "ParseInt") || isLibFunc(cal, "strconv", "ParseUint")) {
+				continue
+			}
+			n++
+			key := fmt.Sprintf("%s→%s#%d", p.FnKey(f), calleeName(p, cs), n)
+			base, isC := constInt(cs.Common().Args[1])
+			switch {
+			case !isC:
+				c.Undecided(key, cs.Pos(), "the base is not a constant")
+			case base == 10:
+				c.Pass(key, cs.Pos(), "decimal")
+			case base == 16:
+				// only for the digits after a 0x prefix
+				sl, ok := cs.Common().Args[0].(*ssa.Slice)
+				lo := int64(-1)
+				if ok && sl.Low != nil {
+					lo, _ = constInt(sl.Low)
+				}
+				c.Check(lo == 2, key, cs.Pos(), "hexadecimal digits are what follows the two characters of the 0x prefix (the string handed over starts at %d)", lo)
+			default:
+				c.Fail(key, cs.Pos(), "the literal is parsed with base %d: with base 0 Go's own syntax decides — `DEFAULT 010` becomes 8 (SQLite: 10), and 0b/0o prefixes and underscores are taken for numbers", base)
+			}
+		}
+	}
+	if n == 0 {
+		c.Undecided("integer literals", fn.Pos(), "readNumericLiteral no longer parses integers with strconv.ParseInt/ParseUint")
 	}
 }
